@@ -261,6 +261,11 @@ static int hist_core(const case_t *c, int emit)
                     csc_free(&Z);
                     if (def > 0) { jo_int("became_singular", 1); H.have_lu = 1; stop = 1; break; }
                 }
+                if (info > 0 && info <= n && H.u == 0.0 && !cstr(c, "dom", "")[0]) {
+                    /* threshold 0 on a matrix that is not diagonally dominant: the caller asked for no pivoting, tiny pivots, overflow
+                       and NaN candidates (all comparisons false, "zero pivot") are the documented consequence, not a defect */
+                    jo_int("u0_breakdown", 1); H.have_lu = 1; stop = 1; break;
+                }
                 if (info != 0) { snprintf(key, sizeof key, "C08|info-nonzero|%c", op); jo_fail(key, "op %ld (%c%d): info = %ld for a nonsingular matrix", nops, op, arg, (long)info); H.have_lu = (info > 0 && info <= n); stop = 1; break; }
                 H.have_lu = 1;
                 if (refact) ++nrefact; else ++nfact;
